@@ -90,6 +90,11 @@ class Ctx:
         else:
             self.obls.append(vc.Obl(name, goal, pre, kind, exit, props, "valid", note))
 
+    def lemma(self, name, hyps, goal, props=None):
+        """a lemma instance: proved on its own from `hyps` only (small query), then available to every later obligation"""
+        self.obls.append(vc.Obl(name, goal, list(hyps), "lemma", None, props or self.unit.props, "valid", "lemma instance"))
+        self.assumes.append(IMP(AND(*hyps), goal))
+
     def cover(self, name, cond, exit=None, props=None, hint=None):
         """reachability: pre ∧ exit ∧ cond must be satisfiable.  hint: extra constraints that pin a witness region (a cover that is
         satisfiable under the hint is satisfiable), used where the general query is hard non-linear arithmetic"""
